@@ -18,6 +18,11 @@ claimed = {
    note="Assumed: contracts of package time on whole seconds (time.Unix, Time.Add, Time.Unix, Time.Sub, Duration.Nanoseconds: listed in the evidence as assumed), region assumptions (facts established by the code before the region, e.g. streamCountBefore <= len(streams)), run-time checks inside the two large functions are assumed to pass (nosafety). Search-result equality and file I/O are not covered.",
    tech="contract-based deductive verification: region contracts + loop invariants, own VC generator over go/ssa + z3/cvc5",
    ref="DESIGN.md section 4 (C07)"),
+ "C15": dict(
+   text="Deductive proof of the varint codec on the real functions: writeVarInt emits exactly the base-128 encoding of its argument (1..10 bytes, proved by complete unrolling with the unwinding obligation), readVarInt returns the value decoded from the bytes it consumed, stops at the first byte without continuation bit, reports the consumed length and fails only when the underlying reader fails (ghost log of ReadByte results); ten round-trip lemmas (one per encoded length) prove decode(encode(x)) = x as bit-vector facts over the two contracts. The cache file as a whole (varbytes/strings, records, accounting, compaction, invalidation, reopen, torn tail) is not within the verifier's reach yet; a bounded stand-in (labelled bounded, not counted as proved) drives real cache files through operation sequences against a map model.",
+   note="Assumed: io.ByteReader/io.Writer are modelled by ghost logs of their results; binary.Write writes the slice it is given. The stand-in is bounded (sequence length, ids, chunk lists stated in the evidence). Known findings: invalidation is not durable across reopen; empty chunks are not representable.",
+   tech="contract-based deductive verification (own VC generator + z3/cvc5) for the codec; bounded stand-in for the file-level behaviour",
+   ref="DESIGN.md section 4 (C15)"),
  "C18": dict(
    text="Deductive proof of the arithmetic and combination steps of the analysis on the real closures: the saturating add and increment are exact (bit-vector proof), the alternation step takes min of minima / max of maxima before adding (rule-site assertions), the suffix merge computes the longest common suffix of the two branch suffixes (loop invariant + assertion), and both walks are free of index panics for every well-formed program. The soundness of the memoised walk as a whole is not a theorem about arbitrary instruction graphs; for it a bounded stand-in (labelled bounded in the evidence, not counted as proved) compares AcceptedLength/ConstantSuffix with brute-force matching over a regex grammar.",
    note="Assumed: syntax.Compile emits programs whose Out/Arg indices are in range (wfprog); termination of the walks is not proved. The stand-in is bounded (expression depth and word length stated in the evidence).",
